@@ -82,11 +82,12 @@ TIMING_CLAUSES = {"progress", "iteration_ends", "threads_exit", "buffered_produc
 PIPE_INVS = "TypeOK InOrder AtMostOnce Complete LookAhead AfterDrop TurnInv"
 
 
-def pipe_cfg(W, N, lens, fail="{}", hook="TRUE", drop="TRUE", cap=None, invs=PIPE_INVS, props="", spec="SPECIFICATION Spec", late="FALSE"):
+def pipe_cfg(W, N, lens, fail="{}", hook="TRUE", drop="TRUE", cap=None, invs=PIPE_INVS, props="", spec="SPECIFICATION Spec", late="FALSE",
+             fragile="FALSE"):
     cap = W if cap is None else cap
-    return ("CONSTANTS W = %d N = %d Lens = %s Cap = %d Fail = %s HookOn = %s HookLate = %s AllowDrop = %s\n%s\n"
+    return ("CONSTANTS W = %d N = %d Lens = %s Cap = %d Fail = %s HookOn = %s HookLate = %s HookFragile = %s AllowDrop = %s\n%s\n"
             "INVARIANTS %s\n%s\nCHECK_DEADLOCK FALSE\n"
-            % (W, N, lens, cap, fail, hook, late, drop, spec, invs, ("PROPERTIES " + props) if props else ""))
+            % (W, N, lens, cap, fail, hook, late, fragile, drop, spec, invs, ("PROPERTIES " + props) if props else ""))
 
 
 def pipe_paths(ctx, W, N, drop, label):
@@ -371,15 +372,18 @@ def child_panic_runs(ctx, combos):
     import subprocess
     vlib.build_harness()
     recs = []
-    for (W, N, fail) in combos:
+    for combo in combos:
+        (W, N, fail) = combo[:3]
+        delay, prior = (combo[3], combo[4]) if len(combo) > 3 else (0, 0)
         try:
-            p = subprocess.run([vlib.harness_bin(), "child-panic", str(W), str(N), str(fail)],
+            p = subprocess.run([vlib.harness_bin(), "child-panic", str(W), str(N), str(fail), str(delay), str(prior)],
                                stdout=subprocess.PIPE, stderr=subprocess.PIPE, text=True, timeout=10)
             ex = "code:%d" % p.returncode
         except subprocess.TimeoutExpired:
             ex = "hang"
         recs.append({"st": "ok", "mode": "child", "W": W, "N": N, "cap": W, "fail": fail, "exit": ex, "ev": [],
-                     "acts": [], "path": [], "drained": True, "case": {"mode": "child", "W": W, "N": N, "fail": fail}})
+                     "acts": [], "path": [], "drained": True,
+                     "case": {"mode": "child", "W": W, "N": N, "fail": fail, "delay_ms": delay, "prior": prior}})
     opath = ctx.path("obs-child.ndjson")
     vlib.write_ndjson(opath, recs)
     fails, _, st = vlib.judge(ctx, "Trace_PipeObs", opath, len(recs), name="Trace_PipeObs-child", workers=2)
@@ -411,6 +415,16 @@ def c09(ctx):
                 name="Pipe-panic-nohook-W%dN%d" % (W, N), expect_violation="NoWedge", coverage=False)
         vlib.mc(ctx, "Pipe", pipe_cfg(W, N, lens, fail="{1}", hook="TRUE", drop="FALSE", invs="TypeOK", props="NoWedge", late="TRUE"),
                 name="Pipe-panic-latehook-W%dN%d" % (W, N), expect_violation="NoWedge", coverage=False)
+    # the hook has to outlive the workers: item N-2 fails while the holder of N-1 waits for its turn and a third worker
+    # has already found the upstream exhausted
+    for (W, N) in ([(3, 3)] if q else [(3, 3), (3, 4)]):
+        lens = "{%d}" % N
+        vlib.mc(ctx, "Pipe", pipe_cfg(W, N, lens, fail="{%d}" % (N - 2), hook="TRUE", drop="FALSE", invs="TypeOK", props="NoWedge",
+                                      fragile="TRUE"),
+                name="Pipe-panic-fragilehook-W%dN%d" % (W, N), expect_violation="NoWedge", coverage=False)
+        vlib.mc(ctx, "Pipe", pipe_cfg(W, N, lens, fail="{%d}" % (N - 2), hook="TRUE", drop="FALSE", invs="TypeOK InOrder AtMostOnce",
+                                      props="NoWedge"),
+                name="Pipe-panic-late-item-W%dN%d" % (W, N), disabled_ok=("Drop", "End", "InstallHook"))
     # look-ahead bound is independent of the upstream length
     for N in ([4, 6] if q else [4, 6, 8]):
         vlib.mc(ctx, "Pipe", pipe_cfg(2, N, "{%d}" % N, props="StopsAfterDrop"), name="Pipe-drop-W2N%d" % N, disabled_ok=("InstallHook",))
@@ -433,6 +447,11 @@ def c09(ctx):
     buffered_judge(ctx, vlib.read_ndjson(rnd), "B-buffered", C09_CLAUSES)
     # many threads: the hook must already be in place when the first worker starts
     combos = [(1, 4, 0), (2, 5, 2), (4, 6, 5), (16, 64, 0), (32, 64, 0), (64, 200, 1)] if q else [(64, 300, 0), (48, 100, 0)] + [(w, n, f) for w in (1, 2, 4) for n in (3, 8) for f in (0, n // 2, n - 1)]
+    # (W, N, fail, delay before the panic in ms, prior): the failing item is still being processed while other workers
+    # already found the upstream exhausted (last items, fewer items than workers), or an earlier pipe of the same process has
+    # run to completion (prior = 1): the hook must still end the process
+    combos += [(4, 2, 0, 60, 0), (3, 6, 4, 60, 0), (4, 9, 7, 60, 0), (2, 6, 3, 0, 1), (4, 3, 1, 40, 1)] if q else \
+        [(w, n, f, d, pr) for w in (2, 3, 4, 8) for n in (2, 5, 9) for f in (0, n - 2, n - 1) for d in (0, 60) for pr in (0, 1)]
     child_panic_runs(ctx, combos)
 
 
